@@ -35,6 +35,8 @@ static void lwe_group(int n) {
         LweSample *src = alias ? r : c2;
         Snap R = snap(r, n), C = snap(src, n);
         uint32_t up = (uint32_t)p; Torus32 mu = (Torus32)0xDEADBEEF;
+        // the library's own phase / decryption of the result object BEFORE the in-place operation (a client that reads the phase before and after must see both)
+        uint32_t lib_before[3]; for (int k = 0; k < 3; k++) lib_before[k] = (uint32_t)lwePhase(r, keys[k]); Torus32 dec_before = lweSymDecrypt(r, keys[2], 8);
         switch (op) { case 0: lweClear(r, par); break; case 1: lweCopy(r, src, par); break; case 2: lweNegate(r, src, par); break; case 3: lweNoiselessTrivial(r, mu, par); break;
                       case 4: lweAddTo(r, src, par); break; case 5: lweSubTo(r, src, par); break; case 6: lweAddMulTo(r, p, src, par); break; case 7: lweSubMulTo(r, p, src, par); break; }
         // expected coefficients
@@ -50,6 +52,8 @@ static void lwe_group(int n) {
             uint32_t pr = (uint32_t)ref::lwe_phase((Torus32 *)R.a.data(), (Torus32)R.b, keys[k]->key, n), pc = (uint32_t)ref::lwe_phase((Torus32 *)C.a.data(), (Torus32)C.b, keys[k]->key, n);
             uint32_t wantph = op == 3 ? (uint32_t)mu : ex(pr, pc);
             uint32_t got = (uint32_t)lwePhase(r, keys[k]);
+            if (lib_before[k] != pr) { violation(key, fmt("lwePhase of the first operand under key %d before the operation is 0x%08x, reference 0x%08x", k, lib_before[k], pr)); ok = false; break; }
+            if (k == 2) { Torus32 d_after = lweSymDecrypt(r, keys[2], 8); Torus32 wd = approxPhase((Torus32)wantph, 8), wb = approxPhase((Torus32)pr, 8); if (dec_before != wb || d_after != wd) { violation(key, fmt("lweSymDecrypt(.,8) before/after the operation gives 0x%08x / 0x%08x, expected 0x%08x / 0x%08x", (uint32_t)dec_before, (uint32_t)d_after, (uint32_t)wb, (uint32_t)wd)); ok = false; break; } }
             if (got != wantph) { violation(key, fmt("phase of the result under key %d is 0x%08x, phase(c1) op p*phase(c2) = 0x%08x", k, got, wantph)); ok = false; }
         }
         // variance annotation
@@ -167,7 +171,8 @@ int main(int argc, char **argv) {
     std::vector<int> ns; for (int n = 1; n <= 40; n++) ns.push_back(n); for (int n : {500, 630, 1023, 1024, 1025, 2048}) ns.push_back(n);
     for (int n : ns) run_group(fmt("lwe/n=%d/", n), [n] { lwe_group(n); });
     for (int N = 2; N <= 1024; N *= 2) for (int k = 1; k <= 3; k++) run_group(fmt("tlwe/N=%d/k=%d/", N, k), [N, k] { tlwe_group(N, k); });
-    for (int N : {2, 8, 1024}) for (int k = 1; k <= 2; k++) run_group(fmt("extract/N=%d/k=%d/", N, k), [N, k] { extract_group(N, k); });
+    for (int N : {3, 5, 6, 7, 12, 100, 500, 1023}) for (int k = 1; k <= 2; k++) run_group(fmt("tlwe/N=%d/k=%d/", N, k), [N, k] { tlwe_group(N, k); });   // ring degrees that are not powers of two
+    for (int N : {2, 8, 1024, 3, 5, 6, 7, 12, 100, 1023}) for (int k = 1; k <= 2; k++) run_group(fmt("extract/N=%d/k=%d/", N, k), [N, k] { extract_group(N, k); });
     sample("lwe/n=3/op=SubTo/p=1/alias=0/c1=seeded/c2=MAX: coefficient arrays, phases under 3 keys (zero, ones, seeded), variance annotation vs exact wrapping arithmetic");
     sample("tlwe/N=16/k=2/op=MulByXaiMinusOne/v=17/c=seeded: components and exact negacyclic phase = (X^a-1)*phase");
     sample("extract/N=1024/k=2/c=seeded/j=1023: phase under tLweExtractKey == coefficient j of the exact TLWE phase");
